@@ -99,6 +99,8 @@ _tmp = []
 
 def scratch_dir():
     """A per-process scratch directory (tmpfs when available), removed at task end."""
+    if os.environ.get("VFW_SCRATCH"):
+        return os.environ["VFW_SCRATCH"]
     if not _tmp or _tmp[0][1] != os.getpid():
         import shutil
 
